@@ -186,6 +186,7 @@ def run(eng, rep) -> None:
     rep.rule("R15.1", "every wire-order-relevant iteration over a struct's fields is in ascending field_id")
     rep.rule("R15.3", "the order of a struct's fields is computed from that struct on every use (no module-level cache keyed by name)")
     rep.rule("R15.2", "the run-time C++ codec iterates the reflected field vector front to back, unsorted (order = Struct.reflection's)")
+    rep.rule("R15.4", "generated C++ struct codec, typed AST of the instance for a model struct declared fb@1, fa@0, fc@2: Encode/Decode (and a decoding constructor, in member declaration order) touch the buffer in ascending field id; no unsequenced buffer accesses")
     rep.assume("dict-insertion order, list order and sorted() stability as specified by Python; jinja2's sort filter sorts ascending by the named attribute")
     S = sinks(eng)
     # functions that can reach a sink
@@ -322,6 +323,9 @@ def run(eng, rep) -> None:
             else:
                 rep.violation("R15.1", t.relpath, "struct block", site, "order is %s%s, not ascending field_id" % (lp.sort_attr, " reversed" if lp.sort_reverse else ""))
     rep.floor("R15.1", "wire-relevant template loops over struct fields", n_j, 2)
+    # ---- R15.4: typed reading of the struct codec on a permuted model struct ----------------------
+    from .struct_codec import run_struct_rules
+    run_struct_rules(eng, rep, "R15.4", None)
 
     # ---- R15.2: dynamic codec follows the reflected order -------------------------
     dyn = None
